@@ -732,6 +732,11 @@ def cases(tier, rng, extended=False):
                 for threads in ((0, 3) if cnt >= 4 else ((0, 3)[(j + rep) % 2],)):
                     D = random_fundamental(rng, bits, cls) if bits > 8 else {1: -23, 5: -83, 8: -56, 12: -84}[cls]
                     yield Case(f"cg_full {D} {threads}", k=False, timeout=240)
+    # ---- two computations into the SAME output directory (a longer one first): the files must describe the second
+    for i in range(6 * scale):
+        D0 = random_fundamental(rng, rng.choice([80, 90, 100]), [1, 5, 8, 12][i % 4])
+        D = random_fundamental(rng, rng.choice([34, 42, 50]), [1, 5, 8, 12][(i + 1) % 4])
+        yield Case(f"cg_full_reuse {D0} {D} 0", k=False, timeout=240)
     # ---- the same with the double large prime variation forced (Preferences::use_double, `ymcls --use-double true`):
     #      relations with two large primes, try_factor64, add_path(p, q)
     for i in range(16 * scale):
@@ -935,7 +940,16 @@ def parse_poly(ans):
                 mm=int(head["mm"]), polys=polys)
 
 
+def _norm(case):
+    """`cg_full_reuse D0 D threads [dbl]` is judged exactly like `cg_full D threads [dbl]`: the files left in a
+    REUSED output directory must describe the second computation only"""
+    if case.op == "cg_full_reuse":
+        return Case("cg_full " + " ".join(case.args[1:]), k=case.k, o=case.o, tag=case.tag, timeout=case.timeout)
+    return case
+
+
 def oracle(case, ans):
+    case = _norm(case)
     op, a = case.op, case.args
     if op == "cg_b_plus":
         p, r, even = int(a[0]), int(a[1]), a[2] == "true"
@@ -1197,6 +1211,7 @@ def solve_x(pol, v, mm):
 
 
 def followup(case, ans):
+    case = _norm(case)
     op = case.op
     if ans in ("panic", "abort", "hang", "?", "none"):
         return None
@@ -1263,6 +1278,12 @@ def followup(case, ans):
 # ================================================================ distribution / texts
 
 def klass(case, ans):
+    reuse = "reuse-outdir/" if case.op == "cg_full_reuse" else ""
+    case = _norm(case)
+    return reuse + _klass(case, ans)
+
+
+def _klass(case, ans):
     op, a = case.op, case.args
     bad = "/" + ans if ans in ("panic", "abort", "hang", "?", "none") else ""
     if op == "cg_b_plus":
